@@ -456,7 +456,49 @@ fn sweep_float(st: &Stats, spec: &super::base::TableSpec, f32_too: bool) {
     });
 }
 
+/// steep segments with explicit (integer, f32-exact) coordinates through the float clauses in f64 and f32:
+/// the division point must lie in both bounding boxes and be common to both segments. This is where a
+/// division point can share its x with a left end point (the one-ulp bump of divide_segment), for positive
+/// and for negative x.
+fn sweep_steep_float(st: &Stats, name: &str, segs: &[(V, V)], dx: i64) {
+    let pts: Vec<(P, P)> = segs.iter().map(|&(a, b)| (((a.0 + dx) as f64, a.1 as f64), ((b.0 + dx) as f64, b.1 as f64))).collect();
+    st.family(&format!("{name}: {} steep segments shifted by {dx} in x, {} ordered pairs x {{different, same}} operand, float clauses in f64 and f32", pts.len(), pts.len() * pts.len()));
+    (0..pts.len()).into_par_iter().for_each(|i| {
+        let mut loc = Local::default();
+        let (a, b) = pts[i];
+        for &(c, d) in pts.iter() {
+            for same in [false, true] {
+                loc.states += 1;
+                loc.transitions += 2;
+                if proper_cross((a, b), (c, d)) {
+                    loc.nontrivial += 1;
+                }
+                let mut cl = check_float::<f64>(a, b, c, d, same);
+                let g = |p: P| (p.0 as f32, p.1 as f32);
+                cl.extend(check_float::<f32>(g(a), g(b), g(c), g(d), same).into_iter().map(|s| format!("{s} (f32)")));
+                for cla in cl {
+                    loc.violation(
+                        &cla,
+                        format!("steepfloat:{:?}-{:?}|{:?}-{:?}|same={same}", a, b, c, d),
+                        json!({"prop": "C16", "kind": "steepfloat", "a": [a.0, a.1], "b": [b.0, b.1], "c": [c.0, c.1], "d": [d.0, d.1], "same": same}),
+                    );
+                }
+            }
+        }
+        st.merge(&loc);
+    });
+}
+
 pub fn replay(case: &Value, verbose: bool) -> Vec<String> {
+    if case["kind"] == "steepfloat" {
+        let v = |k: &str| (case[k][0].as_f64().unwrap(), case[k][1].as_f64().unwrap());
+        let (a, b, c, d) = (v("a"), v("b"), v("c"), v("d"));
+        let same = case["same"].as_bool().unwrap();
+        let mut cl = check_float::<f64>(a, b, c, d, same);
+        let g = |p: P| (p.0 as f32, p.1 as f32);
+        cl.extend(check_float::<f32>(g(a), g(b), g(c), g(d), same).into_iter().map(|s| format!("{s} (f32)")));
+        return cl;
+    }
     if case["kind"] == "float" {
         if verbose {
             debug_float(case);
@@ -546,6 +588,42 @@ pub fn run(tier: &str) -> i32 {
         }
     }
     sweep_int(&st, &format!("steep segments ({{0,1,2}} x {} heights up to 2^24)", ys.len()), &steep, &|v| v);
+    // the one-ulp bump in single precision, for negative and positive x: a steep segment (x0,H)-(x0+1,-H)
+    // crossed just below its upper left end by a horizontal segment; the crossing has the x of the left end
+    // after rounding to f32, so divide_segment bumps it (finding N2: the two segments are then divided at
+    // different points — listed per pair); the bumped point must still lie in both bounding boxes
+    {
+        let mut pairs: Vec<((P, P), (P, P))> = vec![];
+        for x0 in [-3i64, -2, -1, 0, 1, 2] {
+            for h in [1i64 << 23, 1 << 24] {
+                let steep_seg = ((x0 as f64, h as f64), ((x0 + 1) as f64, -(h as f64)));
+                for dy in [1i64, 2, 3] {
+                    for w in [1i64, 2] {
+                        let hor = (((x0 - w) as f64, (h - dy) as f64), ((x0 + w) as f64, (h - dy) as f64));
+                        pairs.push((steep_seg, hor));
+                        pairs.push((hor, steep_seg));
+                    }
+                }
+            }
+        }
+        st.family(&format!("bump family: {} ordered pairs (steep segment (x0,H)-(x0+1,-H) x horizontal segment just below its upper left end; x0 in -3..2, H in 2^23, 2^24) x {{different, same}} operand, float clauses in f64 and f32", pairs.len()));
+        for ((a, b), (c, d)) in pairs {
+            for same in [false, true] {
+                st.state(true);
+                st.trans(2);
+                let mut cl = check_float::<f64>(a, b, c, d, same);
+                let g = |p: P| (p.0 as f32, p.1 as f32);
+                cl.extend(check_float::<f32>(g(a), g(b), g(c), g(d), same).into_iter().map(|s| format!("{s} (f32)")));
+                for cla in cl {
+                    st.violation(
+                        &cla,
+                        format!("steepfloat:{:?}-{:?}|{:?}-{:?}|same={same}", a, b, c, d),
+                        json!({"prop": "C16", "kind": "steepfloat", "a": [a.0, a.1], "b": [b.0, b.1], "c": [c.0, c.1], "d": [d.0, d.1], "same": same}),
+                    );
+                }
+            }
+        }
+    }
     // The float-segment tables of C16 have a FIXED seed (they do not follow VERIF_SEED): two segments
     // that share an end point (right end of one = left end of the other) hit finding N2 on roughly one
     // table in five in f32 and on some 16-point tables in f64, so the failing segment pairs are listed
